@@ -1444,6 +1444,11 @@ func rv4ConsumedTextNotDropped(w *World) {
 
 // rwExplore: exploration only (VERIF_EXPLORE=1), never registered.
 func rwExplore(w *World) {
+	w.rule("RT3")
+	for _, rp := range w.Roots {
+		rt3Scan(w, rp)
+	}
+
 	constIndexGuards(w, "RWX", []string{"linker", "options", "sourceinfo", "", "internal", "protoutil", "reporter", "ast"},
 		func(string) bool { return true }, map[string]string{}, 0, "exploration")
 }
